@@ -6,5 +6,5 @@ p=${2:-$(echo "$1" | cut -d- -f1)}
 cd /repo || exit 2
 git diff --quiet || { echo "/repo has uncommitted changes"; exit 2; }
 git apply "$d/patch.diff" || { echo "patch does not apply"; exit 2; }
-(cd /verif && bin/govc check -no-evidence -tier quick "$p" 2>&1 | grep "VIOLATION\|obligation failed\|quick:\|BROKEN\|KNOWN" | cut -c1-300 | head -12)
+(cd /verif && bin/govc check -no-evidence -tier quick "$p" 2>&1 | grep "VIOLATION\|obligation failed\|bounded check failed\|quick:\|BROKEN\|KNOWN" | cut -c1-300 | head -12)
 git checkout -- . && git status --short | head -3
